@@ -160,3 +160,15 @@ func C04_PauseUnPauseRoundTrip() {
 	}
 	verif.Reach("roundtrip", true)
 }
+
+func init() {
+	reg("C05_MultiTransfer2DestThin", C05_MultiTransfer2DestThin)
+}
+
+// C05_MultiTransfer2DestThin: the arrival of a two-item cross-shard multi transfer (items of
+// arbitrary kinds and token identifiers, no attached call, thin state) touches only the entries
+// of the two named (token, nonce) pairs - the quick-tier slice of C05T_MultiTransfer2Dest.
+func C05_MultiTransfer2DestThin() {
+	footprintCheck(scnMultiTransfer(Opt{GasEnough: true, NoRAE: true, Direct: true, Small: true, NoPause: true, Split1: true, NoURIs: true,
+		NoCall: true, Thin: true, Side: 2, MultiK: 2}))
+}
